@@ -210,6 +210,8 @@ func (w *World) Exec(op Op, ctx context.Context) {
 			val, err = c.P.ReadAllRetry(ctx, op.Tok, readerSource(op))
 		case "notifyrev":
 			err = c.P.NotifyRev(ctx, op.Tok)
+		case "notifyrevflood":
+			err = c.P.NotifyRevFlood(ctx, op.Tok)
 		case "subf":
 			var cf <-chan float64
 			cf, err = c.P.SubF(ctx, op.Tok)
